@@ -284,6 +284,22 @@ def check_inits(ctx):
                 ok, why = True, 'keyword present'
             elif t == 'self.default' and cname in DEF and ('(self.field_name not in defaults)' in gt or any(g.startswith("caught('KeyError'") for g in gt)):
                 ok, why = True, 'keyword absent: the (immutable) default'
+            shallow = t in ('list(self.default)', 'copy.copy(self.default)', 'self.default[:]', 'self.default.copy()', 'dict(self.default)', 'tuple(self.default)')
+            if not ok and shallow:
+                # a flat copy of the declared default: the elements are shared with every other packet of
+                # the class.  Harmless only when they cannot be changed in place: decided from which field
+                # classes can satisfy the guard the path took
+                fixed_guard = [g for g in gt if g.endswith('.is_fixed') and not g.startswith('not ')]
+                setters = sorted({c_.name for c_ in repo.classes.values() for m_ in c_.methods.values() for a_ in ast.walk(m_.node)
+                                  if isinstance(a_, ast.Assign) and any(isinstance(t_, ast.Attribute) and t_.attr == 'is_fixed' and canon(t_.value) == 'self' for t_ in a_.targets)
+                                  and not (isinstance(a_.value, ast.Constant) and a_.value.value is False)})
+                mutable = [c_ for c_ in setters if c_ not in ('Int', 'Data', 'Bits')]
+                if fixed_guard and not mutable:
+                    ok, why = True, 'a flat copy, on a path where the elements are values of %s fields (ints / byte strings: nothing to change in place)' % '/'.join(setters)
+                else:
+                    ctx.violation(rule, fi, '%s stores %s' % (label, t), 'a flat copy of the declared default: its elements are the declared objects themselves%s, so changing an element of one default-constructed packet changes the default of every later packet' % (
+                        ' (%s fields can be "fixed" too, and their values are packets)' % '/'.join(mutable) if fixed_guard and mutable else ''), st_[0].lineno, clause='b', witness=True)
+                    continue
             if ok:
                 ctx.holds(rule, fi, '%s stores %s' % (label, t), why, st_[0].lineno, clause='b')
             else:
@@ -402,18 +418,66 @@ def check_snapshots(ctx):
         ctx.holds(rule, fi, 'Packet.as_prototype -> Prototype(self)', 'a new snapshot per request', fi.node.lineno, clause='b')
 
 
+def check_default_writers(ctx):
+    """Round 6.  (a') the declared default is what the constructor stored: after construction only
+    the two known conversions touch ``.default`` -- Ref._compile turns a packet default into its
+    prototype (``as_prototype()``) and the specialization builder installs the constant of a
+    specialized class.  Anything else that rewrites a default at compile / run time (masking it,
+    normalising it) changes what a packet built without arguments holds"""
+    repo = ctx.repo
+    rule = 'C19-ctor-defaults'
+    n = 0
+    for fi in repo.functions.values():
+        if fi.node.name in ('__init__', '__new__') or fi.node.name in repo.absorbed:
+            continue
+        from ..effects import phase_of
+        ctor_helper = fi.cls is not None and any(isinstance(c, ast.Call) and isinstance(c.func, ast.Attribute) and c.func.attr == fi.node.name and canon(c.func.value) == 'self'
+                                                 for m_ in fi.cls.methods.values() if m_.node.name == '__init__' for c in ast.walk(m_.node))
+        if ctor_helper:
+            continue
+        for a_ in ast.walk(fi.node):
+            tg = a_.targets if isinstance(a_, ast.Assign) else [a_.target] if isinstance(a_, ast.AugAssign) else []
+            for t_ in tg:
+                if isinstance(t_, ast.Attribute) and t_.attr == 'default':
+                    n += 1
+                    st = '%s: %s' % (fi.qual, stmt_text(a_)[:90])
+                    v = a_.value
+                    if isinstance(a_, ast.Assign) and isinstance(v, ast.Call) and isinstance(v.func, ast.Attribute) and v.func.attr == 'as_prototype':
+                        ctx.holds(rule, fi, st, 'a packet default becomes its prototype (snapshot), same value', a_.lineno, clause='a')
+                    elif fi.module == 'packet_builder' and isinstance(a_, ast.Assign):
+                        ctx.holds(rule, fi, st, 'specialization: the class installs its declared constant', a_.lineno, clause='a')
+                    elif isinstance(a_, ast.AugAssign) or any(isinstance(x, ast.Attribute) and x.attr == 'default' for x in ast.walk(v)):
+                        ctx.violation(rule, fi, st, 'the declared default is recomputed after construction: packets built without arguments no longer hold the value the declaration gave', a_.lineno, clause='a', witness=True)
+                    else:
+                        ctx.undecided(rule, fi, st, 'a default is assigned outside the constructors', a_.lineno, clause='a')
+    ctx.unit('default_writers', n)
+
+
+def _attempt(ctx, fn, *a, **k):
+    """a part that cannot be decided is one obligation without verdict; the other parts still report"""
+    try:
+        return fn(ctx, *a, **k)
+    except Undecided as e:
+        ctx.undecided('C19-part', ('bisturi/', fn.__name__), fn.__name__, str(e), 0)
+
+
 def check(ctx):
-    check_ctor_folds(ctx)
-    check_snapshots(ctx)
+    _attempt(ctx, check_ctor_folds)
+    _attempt(ctx, check_default_writers)
+    # "pack() of the result is the encoding of those values": an optional field packs whatever is
+    # not None -- 0 and b'' are values (C08 pair rule of Optional)
+    from .c08 import check_optional
+    _attempt(ctx, check_optional, ctx.repo.cls('Optional'))
+    _attempt(ctx, check_snapshots)
     # a declared default that is a packet is copied whole (hidden slots included)
     from .c17 import check_copies_keep_state
-    check_copies_keep_state(ctx, rule='C19-defaults-copied-whole')
-    check_inits(ctx)
-    check_packet_init(ctx)
+    _attempt(ctx, check_copies_keep_state, rule='C19-defaults-copied-whole')
+    _attempt(ctx, check_inits)
+    _attempt(ctx, check_packet_init)
     # a keyword naming a described field overrides it like an assignment (C17-d)
     from .c17 import check_constructor
-    check_constructor(ctx)
+    _attempt(ctx, check_constructor)
     from .c13 import check_freshness
-    check_freshness(ctx)
+    _attempt(ctx, check_freshness)
     ctx.floor('obligations', len(ctx.obs), 40)
     ctx.trust(*ASSUMPTIONS)
